@@ -495,6 +495,11 @@ class ProgGen:
         return ['fn', params] + self.body(d, new, params)
 
     def lambda_call(self, d, env):
+        if self.rng.random() < 0.2:
+            # a variadic function applied on the spot: its operands are evaluated where the call stands
+            v = self.fresh()
+            body = ['+', ['first', v], ['length', v], self.int_expr(d - 1, env)]
+            return [['fn', v, body]] + [self.int_expr(d - 1, env) for _ in range(self.rng.randint(1, 3))]
         ar = self.rng.choice([0, 1, 1, 2])
         return [self.lam(d - 1, env, ar)] + [self.int_expr(d - 1, env) for _ in range(ar)]
 
@@ -504,7 +509,7 @@ class ProgGen:
         n = r.randint(0, 5)
         k = r.choice(['rec', 'counter', 'hof', 'loop', 'shadow', 'quote', 'qq', 'eval', 'variadic', 'setdeep', 'twoclos', 'letseq',
                       'nil1', 'nil2', 'nil3', 'nil4', 'mset', 'mset2', 'msetclo', 'recshadow', 'laterdef', 'evaldef', 'casesym', 'casesym',
-                      'emptylet', 'variadic2', 'letseq2', 'laterdo', 'letdefine', 'conddef', 'opdefine', 'rebind', 'eq3', 'letdup', 'latelet'])
+                      'emptylet', 'variadic2', 'variadic3', 'letseq2', 'laterdo', 'letdefine', 'conddef', 'opdefine', 'rebind', 'eq3', 'letdup', 'latelet'])
         f, g, x, y = self.fresh(), self.fresh(), r.choice(self.names), r.choice(self.names)
         if k == 'casesym':
             # clause keys are data: a key that happens to be the name of a variable in scope (at any distance) still
@@ -576,6 +581,11 @@ class ProgGen:
             v = self.fresh()      # (a name of its own: the rest of the program takes the alphabet's names for integers)
             return [['define', v, ['quote', [9, 9, 9]]], [['fn', v, ['length', v]], 1, 2], ['let', [[y + 'v', 5]], [['fn', y + 'v', ['first', y + 'v']], n, 2]],
                     ['define', g, 7], [['fn', g, ['set', [g, 0]], g], 1], g, ['length', v]]
+        if k == 'variadic3':
+            # the operands of a call of a variadic function are evaluated in the caller's scope, like those of any other call
+            return [['define', x, 100], ['define', f, ['fn', 'argv', ['+', ['first', 'argv'], ['length', 'argv']]]],
+                    ['let', [[x, n]], [f, x]], [['fn', [x], [f, ['+', x, 1], x]], n], ['let', [[y + 'w', 3]], [f, y + 'w', n]],
+                    ['let', [[x, 7]], [['fn', 'more', ['first', 'more']], x]]]
         if k == 'variadic':
             return [['define', f, ['fn', 'args', ['length', 'args']]], [f], [f, 1, 2, n], [['fn', 'xs', ['first', 'xs']], n, 2]]
         if k == 'setdeep':
